@@ -193,3 +193,346 @@ Proof.
   specialize (R d Hd [] [] [] (S (length (Placeholder.split_string F0 (enc d)))) plain_nil eq_refl).
   cbn [app] in R. rewrite R by lia. unfold res_of. cbn [app]. destruct (exp d). reflexivity.
 Qed.
+
+(* ------------------------------------------------------------------ *)
+(** * Facts about [exp] *)
+
+Lemma exp_plain_parts d : Forall plainseg d ->
+  plain (fst (exp d)) /\ Forall (fun w => PlaceholderUndo.npua w = true) (snd (exp d)).
+Proof.
+  induction 1 as [|[o t] d Hsg _ [IH1 IH2]]; cbn [exp]; [split; [reflexivity|constructor]|].
+  destruct (exp d) as [l ws]. cbn [fst snd] in *. unfold plainseg in Hsg. cbn [snd] in Hsg.
+  assert (Hw : forall name, PlaceholderUndo.npua (welem name t l) = true).
+  { intros name. unfold welem. cbn [PlaceholderUndo.npua forallb]. rewrite andb_true_r.
+    apply andb_true_iff. split; [|exact IH1]. destruct t; [reflexivity|exact Hsg]. }
+  destruct o; cbn [fst snd]; (split; [try reflexivity|try (constructor; [apply Hw|exact IH2])]).
+  - apply plain_app; auto.
+  - exact IH2.
+Qed.
+
+Lemma enc_len_ge d : (length (fst (exp d)) + 2 * length (snd (exp d)) <= length (enc d))%nat.
+Proof.
+  induction d as [|[o t] d IH]; [cbn; lia|].
+  change (enc ((o, t) :: d)) with (enc_seg (o, t) ++ enc d). rewrite app_length.
+  cbn [exp]. destruct (exp d) as [l ws]. cbn [fst snd] in *.
+  destruct o; unfold enc_seg; cbn [fst snd length]; rewrite ?app_length; cbn [length]; lia.
+Qed.
+
+Lemma exp_lead_eq d : enc d = fst (exp d) -> snd (exp d) = [].
+Proof.
+  intros H. pose proof (enc_len_ge d) as L. rewrite H in L.
+  destruct (snd (exp d)); [reflexivity|cbn [length] in L; lia].
+Qed.
+
+Lemma exp_enc_nil d : enc d = [] -> exp d = ([], []).
+Proof.
+  intros H. pose proof (enc_len_ge d) as L. rewrite H in L. cbn [length] in L.
+  destruct (exp d) as [l ws]. cbn [fst snd] in L. destruct l; [|cbn in L; lia]. destruct ws; [reflexivity|cbn in L; lia].
+Qed.
+
+Lemma exp_plain d : Forall plainseg d -> plain (enc d) -> exp d = (enc d, []).
+Proof.
+  induction 1 as [|[o t] d Hsg _ IH]; intros Hp; [reflexivity|].
+  change (enc ((o, t) :: d)) with (enc_seg (o, t) ++ enc d) in *. apply plain_app in Hp as [H1 H2].
+  cbn [exp]. rewrite (IH H2). destruct o; unfold enc_seg in *; cbn [fst snd] in *.
+  - apply plain_cons in H1 as [H1 _]. discriminate.
+  - apply plain_cons in H1 as [H1 _]. discriminate.
+  - reflexivity.
+Qed.
+
+(* ------------------------------------------------------------------ *)
+(** * Run trees and their expansion *)
+
+Definition is_run (x : str) : Prop := exists d, Forall plainseg d /\ x = enc d.
+
+Inductive run_tree : xtree -> Prop :=
+| RT tag attrs text tail kids :
+    is_run (otxt text) -> is_run tail -> Forall run_tree kids ->
+    run_tree (XNode tag attrs text tail kids).
+
+Inductive Exp : xtree -> xtree -> list xtree -> Prop :=
+| Exp_node tag attrs text tail kids dt dl text1 kids' :
+    Forall plainseg dt -> otxt text = enc dt -> Forall plainseg dl -> tail = enc dl ->
+    otxt text1 = fst (exp dt) ->
+    Forall2 (fun k r => Exp k (fst r) (snd r)) kids kids' ->
+    Exp (XNode tag attrs text tail kids)
+        (XNode tag attrs text1 (fst (exp dl))
+               (snd (exp dt) ++ flat_map (fun r : xtree * list xtree => fst r :: snd r) kids'))
+        (snd (exp dl)).
+
+Lemma exp_heights d : Forall (fun w => Placeholder.xheight w = 1%nat) (snd (exp d)).
+Proof.
+  induction d as [|[o t] d IH]; [constructor|]. cbn [exp]. destruct (exp d) as [l ws].
+  cbn [snd] in *. destruct o; try (constructor; [reflexivity|]); exact IH.
+Qed.
+
+Lemma wrappers_fixed f d : Forall plainseg d -> (2 <= f)%nat ->
+  Forall2 (fun c c2 => Placeholder.undo_element f F0 true c = Placeholder.Ok (c2, [])) (snd (exp d)) (snd (exp d)).
+Proof.
+  intros Hd Hf. destruct (exp_plain_parts d Hd) as [_ Hw]. pose proof (exp_heights d) as Hh.
+  induction Hw as [|w ws Hn _ IH]; [constructor|]. inversion Hh; subst. constructor; [|apply IH; assumption].
+  destruct f as [|f1]; [lia|]. apply (PlaceholderUndo.undo_id F0 INV0 ROOM0 NEMP0 w Hn). lia.
+Qed.
+
+Lemma mapM_app {A B} (g : A -> Placeholder.res B) l1 l2 r1 r2 :
+  Placeholder.mapM g l1 = Placeholder.Ok r1 -> Placeholder.mapM g l2 = Placeholder.Ok r2 ->
+  Placeholder.mapM g (l1 ++ l2) = Placeholder.Ok (r1 ++ r2).
+Proof.
+  revert r1; induction l1 as [|a l1 IH]; intros r1 H1 H2; cbn [app Placeholder.mapM] in *.
+  - inversion H1; subst. exact H2.
+  - destruct (g a) as [b|e]; cbn [Placeholder.bind] in *; [|discriminate].
+    destruct (Placeholder.mapM g l1) as [r|e]; cbn [Placeholder.bind] in *; [|discriminate].
+    inversion H1; subst. rewrite (IH r eq_refl H2). reflexivity.
+Qed.
+
+Lemma u_text_run f text kids dt : Forall plainseg dt -> otxt text = enc dt -> (2 <= f)%nat ->
+  exists text1, PlaceholderUndo.u_text F0 f text kids = Placeholder.Ok (text1, snd (exp dt) ++ kids)
+                /\ otxt text1 = fst (exp dt).
+Proof.
+  intros Hd He Hf. unfold PlaceholderUndo.u_text. destruct (otxt text) as [|c r] eqn:Et.
+  - symmetry in He. rewrite (exp_enc_nil dt He). exists text. cbn [fst snd app]. auto.
+  - rewrite He, (ustr_run f dt Hd Hf). cbn [Placeholder.bind]. destruct (exp dt) as [l ws] eqn:Ee.
+    destruct (Placeholder.str_eqb (enc dt) l) eqn:Es.
+    + apply PlaceholderProofs.str_eqb_eq in Es. pose proof (exp_lead_eq dt) as Hn. rewrite Ee in Hn.
+      cbn [fst snd] in Hn. rewrite (Hn Es). exists text. cbn [fst snd app]. rewrite Et, He. auto.
+    + pose proof (wrappers_fixed f dt Hd Hf) as Hw. rewrite Ee in Hw. cbn [snd] in Hw.
+      rewrite (PlaceholderUndo.u_cont_of F0 f ws ws Hw). cbn [Placeholder.bind].
+      exists (ornone l). cbn [fst snd]. split; [reflexivity|]. destruct l; reflexivity.
+Qed.
+
+Lemma u_tail_run f hp tag attrs text1 tail kids2 dl : Forall plainseg dl -> tail = enc dl -> (2 <= f)%nat ->
+  (hp = true \/ plain tail) ->
+  PlaceholderUndo.u_tail F0 f hp tag attrs text1 tail kids2
+  = Placeholder.Ok (XNode tag attrs text1 (fst (exp dl)) kids2, snd (exp dl)).
+Proof.
+  intros Hd He Hf Hhp. unfold PlaceholderUndo.u_tail. destruct tail as [|c r] eqn:Et.
+  - symmetry in He. rewrite (exp_enc_nil dl He). reflexivity.
+  - rewrite <- Et in *. clear Et c r. rewrite He at 1. rewrite (ustr_run f dl Hd Hf). cbn [Placeholder.bind].
+    destruct (exp dl) as [l ws] eqn:Ee. cbn [fst snd].
+    destruct (Placeholder.str_eqb tail l) eqn:Es.
+    + apply PlaceholderProofs.str_eqb_eq in Es. pose proof (exp_lead_eq dl) as Hn. rewrite Ee in Hn.
+      cbn [fst snd] in Hn. rewrite Hn by congruence. subst l. destruct tail; reflexivity.
+    + destruct Hhp as [->|Hp].
+      * pose proof (wrappers_fixed f dl Hd Hf) as Hw. rewrite Ee in Hw. cbn [snd] in Hw.
+        rewrite (PlaceholderUndo.u_cont_of F0 f ws ws Hw). reflexivity.
+      * rewrite He in Hp. rewrite (exp_plain dl Hd Hp) in Ee. inversion Ee; subst.
+        rewrite PlaceholderProofs.str_eqb_refl in Es. discriminate.
+Qed.
+
+Theorem undo_exp : forall W, run_tree W -> forall f hp,
+  (Placeholder.xheight W + 2 <= f)%nat -> (hp = true \/ plain (xtail W)) ->
+  exists W' sibs, Placeholder.undo_element f F0 hp W = Placeholder.Ok (W', sibs) /\ Exp W W' sibs.
+Proof.
+  induction W as [tag attrs text tail kids IH] using Placeholder.xtree_ind2.
+  intros HR f hp Hf Hhp. inversion HR as [? ? ? ? ? [dt [Hdt Et]] [dl [Hdl El]] Hkids]; subst.
+  rewrite PlaceholderUndo.xheight_unfold in Hf. destruct f as [|f1]; [lia|].
+  rewrite (PlaceholderUndo.undo_element_S F0 NEMP0).
+  destruct (u_text_run f1 text kids dt Hdt Et ltac:(lia)) as (text1 & -> & Ht1). cbn [Placeholder.bind].
+  unfold PlaceholderUndo.u_rest.
+  (* the children *)
+  assert (HK : exists kids', Forall2 (fun k r => Placeholder.undo_element f1 F0 true k = Placeholder.Ok (fst r, snd r)
+                                              /\ Exp k (fst r) (snd r)) kids kids').
+  { assert (Hh : forall k, In k kids -> (Placeholder.xheight k + 2 <= f1)%nat).
+    { intros k Hk. pose proof (PlaceholderUndo.xheights_in _ _ Hk). lia. }
+    clear Hf Et Ht1 HR Hhp. induction kids as [|k kids IHk]; [exists []; constructor|].
+    inversion IH as [|? ? IHk0 IHr]; subst. inversion Hkids as [|? ? Hk0 Hkr]; subst.
+    destruct (IHk0 Hk0 f1 true (Hh k (or_introl eq_refl)) (or_introl eq_refl)) as (k' & sib & E & X).
+    destruct (IHk IHr Hkr ltac:(intros; apply Hh; now right)) as (kids' & F2).
+    exists ((k', sib) :: kids'). constructor; [cbn [fst snd]; auto|exact F2]. }
+  destruct HK as (kids' & F2).
+  assert (M1 : Placeholder.mapM (fun c => Placeholder.bind (Placeholder.undo_element f1 F0 true c)
+                                            (fun r => Placeholder.Ok (fst r :: snd r))) (snd (exp dt))
+               = Placeholder.Ok (map (fun c => [c]) (snd (exp dt)))).
+  { apply PlaceholderUndo.mapM_kids_of. apply wrappers_fixed; [exact Hdt|lia]. }
+  assert (M2 : Placeholder.mapM (fun c => Placeholder.bind (Placeholder.undo_element f1 F0 true c)
+                                            (fun r => Placeholder.Ok (fst r :: snd r))) kids
+               = Placeholder.Ok (map (fun r : xtree * list xtree => fst r :: snd r) kids')).
+  { clear - F2. induction F2 as [|k r kids kids' [E _] _ IHf]; cbn [Placeholder.mapM map]; [reflexivity|].
+    rewrite E. cbn [Placeholder.bind fst snd]. rewrite IHf. reflexivity. }
+  rewrite (mapM_app _ _ _ _ _ M1 M2). cbn [Placeholder.bind].
+  rewrite concat_app, PlaceholderUndo.concat_singletons.
+  rewrite (u_tail_run f1 hp tag attrs text1 (enc dl) _ dl Hdl eq_refl ltac:(lia) Hhp).
+  eexists _, _. split; [reflexivity|].
+  rewrite <- flat_map_concat_map. eapply Exp_node; eauto.
+  clear - F2. induction F2 as [|k r kids kids' [_ X] _ IHf]; constructor; auto.
+Qed.
+
+(* ------------------------------------------------------------------ *)
+(** * The projections of an expansion *)
+
+Definition scan (acc : bool) : list xtree -> pst -> pst :=
+  fix go (ks : list xtree) (st : pst) {struct ks} : pst :=
+  match ks with
+  | [] => st
+  | k :: r =>
+      let '(txt, a, dropping) := st in
+      match wrapper_kind k with
+      | Some w => go r (if dropping then st else push (wrapper_text acc w k ++ xtail k) st)
+      | None =>
+          if goes acc k then go r (txt, a, true)
+          else let k' := proj acc k in
+               go r (txt, XNode (xtag k') (xattrs k') (xtext k') (xtail k) (xkids k') :: a, false)
+      end
+  end.
+
+Lemma scan_nil acc st : scan acc [] st = st.
+Proof. reflexivity. Qed.
+Lemma scan_cons acc k r txt a dropping :
+  scan acc (k :: r) (txt, a, dropping)
+  = match wrapper_kind k with
+    | Some w => scan acc r (if dropping then (txt, a, dropping) else push (wrapper_text acc w k ++ xtail k) (txt, a, dropping))
+    | None =>
+        if goes acc k then scan acc r (txt, a, true)
+        else let k' := proj acc k in
+             scan acc r (txt, XNode (xtag k') (xattrs k') (xtext k') (xtail k) (xkids k') :: a, false)
+    end.
+Proof. reflexivity. Qed.
+
+Lemma proj_unfold acc tag attrs text tail kids :
+  proj acc (XNode tag attrs text tail kids)
+  = let '(txt, ks, _) := scan acc kids (otxt text, [], false) in
+    XNode (proj_tag acc (XNode tag attrs text tail kids)) (proj_attrs acc (XNode tag attrs text tail kids))
+          (Some txt) tail (rev ks).
+Proof. reflexivity. Qed.
+
+Definition vw (acc : bool) (W : xtree) : xtree := if acc then aw W else rw W.
+Definition vs (acc : bool) (x : str) : str := if acc then astr x else rstr x.
+Definition live (acc : bool) (k : xtree) : bool := if acc then alive_w k else alive_r k.
+
+Lemma goes_live acc k : goes acc k = negb (live acc k).
+Proof. destruct acc; cbn; unfold alive_w, alive_r, is_deleted, is_inserted; now rewrite negb_involutive. Qed.
+
+(* no element of the tree has one of the three wrapper tags *)
+Inductive clean_tags : xtree -> Prop :=
+| CT tag attrs text tail kids :
+    wrapper_kind (XNode tag attrs text tail kids) = None -> Forall clean_tags kids ->
+    clean_tags (XNode tag attrs text tail kids).
+
+Definition wsum (acc : bool) (ws : list xtree) : str :=
+  concat (map (fun w => match wrapper_kind w with Some k => wrapper_text acc k w | None => [] end ++ xtail w) ws).
+
+Lemma otxt_ornone t : otxt (ornone t) = t.
+Proof. destruct t; reflexivity. Qed.
+
+Lemma exp_sum acc d : fst (exp d) ++ wsum acc (snd (exp d)) = if acc then DMP.t2 d else DMP.t1 d.
+Proof.
+  induction d as [|[o t] d IH]; [destruct acc; reflexivity|].
+  cbn [exp]. destruct (exp d) as [l ws]. cbn [fst snd] in IH.
+  rewrite DMPBase.t1_proj, DMPBase.t2_proj, !DMPBase.proj_cons, <- DMPBase.t1_proj, <- DMPBase.t2_proj.
+  destruct o; cbn [fst snd]; unfold wsum; cbn [map concat]; fold (wsum acc ws).
+  - (* DELETE *) change (wrapper_kind (welem Placeholder.s_delete t l)) with (Some WDel).
+    unfold wrapper_text. cbn [xtext xtail welem]. rewrite otxt_ornone.
+    destruct acc; cbn [DMPBase.keep1 DMPBase.keep2 DMP.is_insert DMP.is_delete negb app]; rewrite <- IH; rewrite ?app_assoc; reflexivity.
+  - (* INSERT *) change (wrapper_kind (welem Placeholder.s_insert t l)) with (Some WIns).
+    unfold wrapper_text. cbn [xtext xtail welem]. rewrite otxt_ornone.
+    destruct acc; cbn [DMPBase.keep1 DMPBase.keep2 DMP.is_insert DMP.is_delete negb app]; rewrite <- IH; rewrite ?app_assoc; reflexivity.
+  - (* EQUAL *) destruct acc; cbn [DMPBase.keep1 DMPBase.keep2 DMP.is_insert DMP.is_delete negb]; rewrite <- IH, <- app_assoc; reflexivity.
+Qed.
+
+Lemma exp_sum_vs acc d : Forall plainseg d -> fst (exp d) ++ wsum acc (snd (exp d)) = vs acc (enc d).
+Proof. intros H. rewrite exp_sum. destruct acc; cbn [vs]; [now rewrite astr_enc|now rewrite rstr_enc]. Qed.
+
+Lemma exp_wrappers d : Forall (fun w => wrapper_kind w <> None) (snd (exp d)).
+Proof.
+  induction d as [|[o t] d IH]; [constructor|]. cbn [exp]. destruct (exp d) as [l ws]. cbn [snd] in *.
+  destruct o; try (constructor; [discriminate|]); exact IH.
+Qed.
+
+Lemma push_app a b st : push (a ++ b) st = push b (push a st).
+Proof.
+  destruct st as [[txt acc] d]. destruct acc as [|e acc]; cbn [push]; [now rewrite app_assoc|].
+  cbn [xtag xattrs xtext xtail xkids]. now rewrite app_assoc.
+Qed.
+
+Lemma scan_wrappers acc ws : Forall (fun w => wrapper_kind w <> None) ws -> forall rest txt a,
+  scan acc (ws ++ rest) (txt, a, true) = scan acc rest (txt, a, true) /\
+  scan acc (ws ++ rest) (txt, a, false) = scan acc rest (push (wsum acc ws) (txt, a, false)).
+Proof.
+  induction 1 as [|w ws Hw _ IH]; intros rest txt a; cbn [app].
+  - split; [reflexivity|]. unfold wsum. cbn [map concat]. destruct a as [|e a]; cbn [push]; [now rewrite app_nil_r|].
+    destruct e; cbn. now rewrite app_nil_r.
+  - rewrite !scan_cons. destruct (wrapper_kind w) as [k|] eqn:Ek; [|congruence]. split; [apply IH|].
+    unfold wsum. cbn [map concat]. rewrite Ek. fold (wsum acc ws).
+    destruct a as [|e a]; cbn [push]; rewrite (proj2 (IH rest _ _)); cbn [push xtag xattrs xtext xtail xkids];
+      rewrite <- ?app_assoc; reflexivity.
+Qed.
+
+Lemma set_tail_id e : set_tail e (xtail e) = e.
+Proof. destruct e; reflexivity. Qed.
+
+(* [str] is defined twice (Str.str, Placeholder.str); rewriting needs one spelling *)
+Ltac nstr := unfold pst, Placeholder.str, Str.str in *.
+Ltac nrewrite H := let E := fresh "E" in pose proof H as E; unfold pst, Placeholder.str, Str.str in E; rewrite E; clear E.
+
+Theorem proj_exp acc : forall W, clean_tags W -> forall W' sibs, Exp W W' sibs ->
+  proj acc W' = set_tail (vw acc W) (xtail W').
+Proof.
+  induction W as [tag attrs text tail kids IH] using Placeholder.xtree_ind2.
+  intros HC W' sibs HE. inversion HC as [? ? ? ? ? Hk0 HCk]; subst.
+  inversion HE as [? ? ? ? ? dt dl text1 kids' Hdt Et Hdl El Ht1 F2]; subst.
+  rewrite proj_unfold.
+  (* the text wrappers *)
+  destruct (scan_wrappers acc (snd (exp dt)) (exp_wrappers dt)
+              (flat_map (fun r : xtree * list xtree => fst r :: snd r) kids') (otxt text1) []) as [_ S1].
+  nstr. rewrite S1. cbn [push]. rewrite Ht1. nrewrite (exp_sum_vs acc dt Hdt). rewrite <- Et.
+  (* the children, each with the wrappers made from its tail *)
+  assert (SK : forall txt a d0, exists d1,
+             scan acc (flat_map (fun r : xtree * list xtree => fst r :: snd r) kids') (txt, a, d0)
+             = (txt, rev (map (vw acc) (filter (live acc) kids)) ++ a, d1)).
+  { clear S1 HE HC Hk0. induction F2 as [|k r kids kids' X _ IHf]; intros txt a d0; [exists d0; reflexivity|].
+    inversion IH as [|? ? IHk IHr]; subst. inversion HCk as [|? ? HCk0 HCr]; subst.
+    destruct r as [k' sib]. cbn [fst snd] in X.
+    cbn [flat_map fst snd]. rewrite <- app_comm_cons. rewrite scan_cons.
+    pose proof (IHk HCk0 k' sib X) as Pk.
+    inversion X as [ktag kattrs ktext ktail kkids kdt kdl ktext1 kkids' Hkdt KEt Hkdl KEl KHt1 KF2]; subst.
+    inversion HCk0 as [? ? ? ? ? Hkk _]; subst.
+    match goal with |- context [wrapper_kind ?K] => change (wrapper_kind K) with (wrapper_kind (XNode ktag kattrs ktext (enc kdl) kkids)) end.
+    rewrite Hkk. rewrite goes_live.
+    match goal with |- context [live acc ?K] =>
+      change (live acc K) with (live acc (XNode ktag kattrs ktext (enc kdl) kkids)) end.
+    cbn [filter].
+    destruct (live acc (XNode ktag kattrs ktext (enc kdl) kkids)) eqn:El; cbn [negb].
+    - cbv zeta. rewrite Pk. cbn [set_tail xtail xtag xattrs xtext xkids].
+      match goal with |- context [scan acc (snd (exp kdl) ++ ?rest) (?t, ?e :: ?aa, false)] =>
+        destruct (scan_wrappers acc (snd (exp kdl)) (exp_wrappers kdl) rest t (e :: aa)) as [_ S2] end.
+      nstr. rewrite S2. cbn [push xtag xattrs xtext xtail xkids].
+      nrewrite (exp_sum_vs acc kdl Hkdl).
+      match goal with |- context [scan acc _ (?t, ?e :: ?aa, false)] =>
+        destruct (IHf IHr HCr t (e :: aa) false) as [d1 E1] end.
+      exists d1. nstr. rewrite E1. cbn [map rev]. rewrite <- app_assoc. cbn [app]. do 3 f_equal.
+      destruct acc; cbn [vw vs]; [rewrite aw_unfold|rewrite rw_unfold]; reflexivity.
+    - match goal with |- context [scan acc (snd (exp kdl) ++ ?rest) (?t, ?aa, true)] =>
+        destruct (scan_wrappers acc (snd (exp kdl)) (exp_wrappers kdl) rest t aa) as [S2 _] end.
+      nstr. rewrite S2. apply IHf; assumption. }
+  destruct (SK (vs acc (otxt text)) [] false) as [d1 E]. nstr. rewrite E. rewrite app_nil_r, rev_involutive.
+  cbn [set_tail xtail]. destruct acc; cbn [vw vs live]; [rewrite aw_unfold|rewrite rw_unfold]; reflexivity.
+Qed.
+
+(* ------------------------------------------------------------------ *)
+(** * finalize on a run tree *)
+
+Lemma xheight_le_tsize : forall t, (Placeholder.xheight t <= Placeholder.tsize t)%nat.
+Proof.
+  induction t as [tag attrs text tail kids IH] using Placeholder.xtree_ind2.
+  cbn [Placeholder.xheight Placeholder.tsize].
+  assert (H : ((fix go (l : list xtree) : nat :=
+                  match l with [] => 0 | k :: r => Nat.max (Placeholder.xheight k) (go r) end) kids
+               <= (fix go (l : list xtree) : nat :=
+                     match l with [] => 0 | k :: r => Placeholder.tsize k + go r end) kids)%nat).
+  { induction IH as [|k r Hk _ IHr]; [lia|]. lia. }
+  lia.
+Qed.
+
+(* finalize never fails on a run tree, and its result is read by the two projections as the
+   two views of the working tree (up to the tail of the root, which is outside the document) *)
+Theorem finalize_run W : run_tree W -> clean_tags W -> plain (xtail W) ->
+  exists T, finalize F0 W = FOk T /\
+            accept T = set_tail (aw W) (xtail T) /\ reject T = set_tail (rw W) (xtail T).
+Proof.
+  intros HR HC HT.
+  destruct (undo_exp W HR (Placeholder.default_fuel F0 W) false) as (W' & sibs & E & X).
+  - unfold Placeholder.default_fuel, Placeholder.UNDO_DEPTH. pose proof (xheight_le_tsize W). lia.
+  - now right.
+  - exists W'. unfold finalize, Placeholder.undo_tree, Placeholder.undo_tree_fuel. rewrite E. cbn [Placeholder.bind fst of_ph].
+    split; [reflexivity|]. split; [apply (proj_exp true W HC W' sibs X)|apply (proj_exp false W HC W' sibs X)].
+Qed.
